@@ -197,6 +197,7 @@ type qspec struct {
 	limit, tail    int
 	order          int // 0 none, 1 asc, 2 desc
 	scanFull       bool
+	count          bool // SELECT COUNT(*)
 }
 
 type qrun struct {
@@ -677,6 +678,11 @@ func (w *w6q) buildQuery(op simrt.Op) qspec {
 		return s
 	}
 	cols := pkq(r, "*", "_partition, _offset, _ts", "_offset, _partition, _key, _ts, _value", "_ts, _offset, _partition")
+	if r.IntN(8) == 0 {
+		// an aggregate over the same filters: one row, the number of matching records
+		q.count = true
+		cols = kw("count") + "(*)"
+	}
 	text := kw("select") + " " + cols + " " + kw("from") + " " + q.topic
 	var conds []string
 	if r.IntN(2) == 0 {
@@ -711,7 +717,11 @@ func (w *w6q) buildQuery(op simrt.Op) qspec {
 		text += " " + kw("last") + " " + d
 		bounded = true
 	}
-	switch r.IntN(4) {
+	shape := r.IntN(4)
+	if q.count {
+		shape = 3 // limit, tail and ordering do not go with an aggregate
+	}
+	switch shape {
 	case 0:
 		q.limit = pkq(r, 1, 2, 3, 5, 8, 50)
 		text += " " + kw("limit") + " " + strconv.Itoa(q.limit)
@@ -737,7 +747,7 @@ func (w *w6q) buildQuery(op simrt.Op) qspec {
 			text += fmt.Sprintf(" _ts <= %d", v)
 		}
 	}
-	if r.IntN(4) == 0 && (bounded || len(conds) == 0) && (q.tail == 0 || r.IntN(8) == 0) {
+	if r.IntN(4) == 0 && !q.count && (bounded || len(conds) == 0) && (q.tail == 0 || r.IntN(8) == 0) {
 		q.order = 1
 		text += " " + kw("order by") + " _ts"
 		if r.IntN(2) == 0 {
@@ -755,6 +765,7 @@ func (w *w6q) buildQuery(op simrt.Op) qspec {
 // ---- oracle
 
 type qrow struct {
+	first   []byte // the row's first value as sent
 	part    int32
 	off, ts int64
 	hasTS   bool
@@ -810,6 +821,9 @@ func parseAnswer(out []byte) (rows []qrow, complete bool, errMsg string, problem
 				return rows, complete, errMsg, fmt.Sprintf("a DataRow has %d values for %d described columns", len(m.Values), len(fields))
 			}
 			row := qrow{part: -1, off: -1}
+			if len(m.Values) > 0 {
+				row.first = append([]byte(nil), m.Values[0]...)
+			}
 			for i, f := range fields {
 				v := m.Values[i]
 				switch f {
@@ -918,6 +932,19 @@ func (w *w6q) limitOf(q qspec) int {
 
 // matches reports "" if got is a correct answer for the filtered rows all (in scan order).
 func (w *w6q) matches(q qspec, all []qrec, got []qrow) string {
+	if q.count {
+		if len(all) == 0 && len(got) == 0 {
+			return "" // no matching record, no group
+		}
+		if len(got) != 1 {
+			return fmt.Sprintf("%d rows for COUNT(*), %d records pass the filters", len(got), len(all))
+		}
+		n, err := strconv.ParseInt(string(got[0].first), 10, 64)
+		if err != nil || n != int64(len(all)) {
+			return fmt.Sprintf("COUNT(*) = %q, %d records pass the filters", got[0].first, len(all))
+		}
+		return ""
+	}
 	limit := w.limitOf(q)
 	same := func(a qrec, b qrow) string {
 		if a.part != b.part || a.off != b.off {
@@ -1120,6 +1147,9 @@ func (w *w6q) finish() {
 		}
 		if qr.spec.last > 0 {
 			w.sim.Probe("c36.judged-last")
+		}
+		if qr.spec.count {
+			w.sim.Probe("c36.judged-count")
 		}
 		if qr.spec.offMin != nil || qr.spec.offMax != nil {
 			w.sim.Probe("c36.judged-offset-filter")
